@@ -21,7 +21,7 @@ func init() { Register(c11{}) }
 
 func (c11) Name() string { return "c11" }
 func (c11) Rule() string {
-	return "seeded histories of 2..6 operations (Load(root_i), LoadFromContent(root_i,text), external rewrite of a file followed by InvalidateFile or ClearCache, ClearCache) on ONE shared include.Loader over a generated include graph of 2..5 files (relative/./absolute/~/glob forms, cycles, diamonds) on the simulated disk; after every load a fresh loader on the same disk must return equal Files, FileOrder, syntax trees and errors. Non-trivial: at least two loads and at least one load that hit the cache on a file that itself has includes, or an invalidation between two loads. Distinct: hash of (graph shape, operation sequence)."
+	return "seeded histories of 2..6 operations (Load(root_i), LoadFromContent(root_i,text), external rewrite / creation / deletion of a file followed by InvalidateFile or ClearCache, ClearCache, SetLimits) on ONE shared include.Loader over a generated include graph of 2..5 files (relative/./absolute/~/glob forms, cycles, diamonds, chains longer than the depth limit, files above the size limit) on the simulated disk; include depth limit default or 1..4, size limit default or small; after every load a fresh loader with the same limits on the same disk must return equal Files, FileOrder, syntax trees and errors. Concurrent class (a quarter of the runs): a Load is in flight as a scheduled task, preempted at every lock and disk call, while another task rewrites a file and invalidates it (or changes the limits, or clears the cache); once both are done a further load on the shared loader must equal a fresh loader. Non-trivial: at least two loads and at least one load that hit the cache on a file that itself has includes, or an invalidation between two loads, or an invalidation that landed inside a load. Distinct: hash of (graph shape, limits, operation sequence, interleaving)."
 }
 func (c11) Enumerated(string) int { return 0 }
 func (c11) Components() ([]string, []string) {
@@ -88,19 +88,44 @@ func (c11) Run(ctx *RunCtx) {
 		ctx.T("%s", l)
 	}
 	shared := include.NewLoader()
+	limits := include.DefaultLimits()
+	drawLimits := func() {
+		limits = include.DefaultLimits()
+		if c.Pct("small-depth", 40) {
+			limits.MaxIncludeDepth = 1 + c.Choose("depth", 4)
+		}
+		if c.Pct("small-size", 20) {
+			limits.MaxFileSizeBytes = int64(60 + 40*c.Choose("size", 5))
+		}
+	}
+	if c.Pct("limits", 50) {
+		drawLimits()
+		shared.SetLimits(limits)
+		ctx.T("SetLimits(depth=%d size=%d)", limits.MaxIncludeDepth, limits.MaxFileSizeBytes)
+	}
+	newFresh := func() *include.Loader {
+		l := include.NewLoader()
+		l.SetLimits(limits)
+		return l
+	}
+	if c.Pct("concurrent", 25) {
+		c11Concurrent(ctx, w, shared, &limits, newFresh)
+		return
+	}
+	created := 0
 	nops := c.Range("nops", 2, 6)
 	loads, invalidations, cacheHitsNested := 0, 0, 0
 	loadedBefore := map[string]bool{}
 	var sig []string
 	version := 0
 	for op := 0; op < nops; op++ {
-		kind := c.Weighted("op", []int{5, 2, 3, 1})
+		kind := c.Weighted("op", []int{5, 2, 3, 1, 1, 2})
 		switch kind {
 		case 0, 1:
 			root := w.Files[c.Choose("root", len(w.Files))]
 			var res, fres *include.ResolvedJournal
 			var errs, ferrs []include.LoadError
-			fresh := include.NewLoader()
+			fresh := newFresh()
 			// probe: will this load hit the cache on a file that has includes?
 			for _, f := range w.Files {
 				if loadedBefore[f.Path] && len(f.Incs) > 0 && f.Path != root.Path {
@@ -179,6 +204,39 @@ func (c11) Run(ctx *RunCtx) {
 			shared.ClearCache()
 			loadedBefore = map[string]bool{}
 			sig = append(sig, "X")
+		case 4:
+			drawLimits()
+			ctx.T("SetLimits(depth=%d size=%d)", limits.MaxIncludeDepth, limits.MaxFileSizeBytes)
+			shared.SetLimits(limits)
+			sig = append(sig, fmt.Sprintf("S%d/%d", limits.MaxIncludeDepth, limits.MaxFileSizeBytes))
+		case 5:
+			// a file appears or disappears on disk (matching the glob includes of
+			// its directory) and the loader is told about that path
+			var p string
+			if paths := w.Disk.Paths(); c.Pct("delete", 40) && len(paths) > 0 {
+				var js []string
+				for _, q := range paths {
+					if strings.HasSuffix(q, ".journal") {
+						js = append(js, q)
+					}
+				}
+				if len(js) == 0 {
+					continue
+				}
+				p = js[c.Choose("delete-which", len(js))]
+				w.Disk.Remove(p)
+				ctx.T("external delete %s + InvalidateFile", p)
+				sig = append(sig, "D"+p)
+			} else {
+				created++
+				p = []string{"/sim/ws/", "/sim/ws/sub/"}[c.Choose("create-dir", 2)] + fmt.Sprintf("n%d.journal", created)
+				w.Disk.WriteFile(p, []byte(fmt.Sprintf("; created %d\n2024-05-01 created%d\n    n%d:x  1 USD\n    n%d:y\n", created, created, created, created)))
+				ctx.T("external create %s + InvalidateFile", p)
+				sig = append(sig, "N"+p)
+			}
+			shared.InvalidateFile(p)
+			delete(loadedBefore, p)
+			invalidations++
 		}
 	}
 	ctx.Stats.Add("loads", int64(loads))
@@ -197,4 +255,104 @@ func (c11) Run(ctx *RunCtx) {
 	}
 	ctx.SigExtra = strings.Join(shape, "|") + "#" + strings.Join(sig, ",")
 	ctx.Stats.State("c11", len(w.Files), strings.Join(shape, "|"))
+}
+
+// c11Concurrent: a load is in flight while the loader is told about a change.
+func c11Concurrent(ctx *RunCtx, w *IncWorld, shared *include.Loader, limits *include.Limits, newFresh func() *include.Loader) {
+	c := ctx.C
+	sched := simrt.NewSched(c, ctx.Log)
+	simrt.Activate(sched)
+	defer simrt.Activate(nil)
+	root := w.Files[c.Choose("root", len(w.Files))]
+	if c.Pct("warm", 50) {
+		// warm the cache sequentially first (a task run to completion)
+		simrt.Go("c11:warm", func() { shared.Load(root.Path) })
+		for t := sched.Tasks[len(sched.Tasks)-1]; t.State != simrt.StDone && sched.Runnable(t); {
+			sched.Step(t)
+		}
+		ctx.T("Load(%s) to warm the cache", root.Path)
+	}
+	simrt.Go("c11:load", func() { shared.Load(root.Path) })
+	loadTask := sched.Tasks[len(sched.Tasks)-1]
+	pre := c.Choose("steps-before-change", 24)
+	steps := 0
+	for ; steps < pre && loadTask.State != simrt.StDone && sched.Runnable(loadTask); steps++ {
+		sched.Step(loadTask)
+	}
+	inFlight := loadTask.State != simrt.StDone
+	at := ""
+	if r := sched.Pending(loadTask); r != nil {
+		at = r.Kind + " " + r.Site
+	}
+	ctx.T("Load(%s) in flight: %d steps done, parked at %q, finished=%v", root.Path, steps, at, !inFlight)
+	// the change: performed by the harness (the disk belongs to the simulator);
+	// telling the loader is a second task
+	f := w.Files[c.Choose("edit-file", len(w.Files))]
+	how := c.Weighted("tell-how", []int{6, 1, 2})
+	told := ""
+	switch how {
+	case 0, 1:
+		text := f.Text
+		if c.Pct("drop-includes", 30) {
+			var keep []string
+			for _, l := range strings.Split(text, "\n") {
+				if !strings.HasPrefix(l, "include ") {
+					keep = append(keep, l)
+				}
+			}
+			text = strings.Join(keep, "\n")
+		}
+		text += "\n2024-04-01 edited\n    e:x  7 USD\n    e:y\n"
+		w.Disk.WriteFile(f.Path, []byte(text))
+		if how == 0 {
+			told = f.Path + " was rewritten and InvalidateFile ran"
+			ctx.T("external write %s, then task: InvalidateFile", f.Path)
+			simrt.Go("c11:invalidate", func() { shared.InvalidateFile(f.Path) })
+		} else {
+			told = f.Path + " was rewritten and ClearCache ran"
+			ctx.T("external write %s, then task: ClearCache", f.Path)
+			simrt.Go("c11:clear", func() { shared.ClearCache() })
+		}
+	case 2:
+		nl := include.DefaultLimits()
+		nl.MaxIncludeDepth = 1 + c.Choose("depth", 4)
+		if c.Bool("small-size") {
+			nl.MaxFileSizeBytes = int64(60 + 40*c.Choose("size", 5))
+		}
+		*limits = nl
+		told = fmt.Sprintf("SetLimits(depth=%d size=%d) ran", nl.MaxIncludeDepth, nl.MaxFileSizeBytes)
+		ctx.T("task: SetLimits(depth=%d size=%d)", nl.MaxIncludeDepth, nl.MaxFileSizeBytes)
+		simrt.Go("c11:setlimits", func() { shared.SetLimits(nl) })
+	}
+	for n := 0; n < 5000; n++ {
+		run := sched.RunnableTasks()
+		if len(run) == 0 {
+			break
+		}
+		sched.Step(run[c.Choose("task", len(run))])
+	}
+	for _, t := range sched.Tasks {
+		if t.State != simrt.StDone {
+			ctx.Fail(&Violation{Property: "C11", Oracle: "liveness", Class: "stuck", Msg: fmt.Sprintf("%v did not finish (deadlock between a load and an invalidation)", t)})
+			return
+		}
+	}
+	if len(sched.Panics) > 0 {
+		ctx.Fail(&Violation{Property: "C11", Oracle: "liveness", Class: "crash", Msg: fmt.Sprintf("panic in %s: %s", sched.Panics[0].Task, sched.Panics[0].Value)})
+		return
+	}
+	// afterwards, sequentially: the shared loader must agree with a fresh one
+	simrt.Activate(nil)
+	res, errs := shared.Load(root.Path)
+	fres, ferrs := newFresh().Load(root.Path)
+	ctx.NonTrivial = true
+	ctx.SigExtra = fmt.Sprintf("conc:%s:%d:%d:%s", root.Path, how, steps, at)
+	if inFlight {
+		ctx.Stats.Inc("probe:invalidation-inside-a-load")
+	}
+	if d := loadResultEqual(res, errs, fres, ferrs); d != "" {
+		ctx.T("  MISMATCH: %s", d)
+		ctx.Fail(&Violation{Property: "C11", Oracle: "fresh-loader", Class: "after-concurrent-invalidation",
+			Msg: fmt.Sprintf("a load of %s was in flight (parked at %q) when %s concurrently; afterwards a load on the shared loader differs from a fresh loader on the same disk: %s", root.Path, at, told, d)})
+	}
 }
